@@ -157,6 +157,8 @@ def match_known(open_f, sources, kind, detail):
         return "ASKED"
     lits = STRLIT.findall(text)
     if kind == "compile-panic":
+        if "any(placeholder=true)" in detail and "C03-F10" in open_f and re.search(r":\s*\([^)]*\)\s*->", text):
+            return "C03-F10"
         if "overflow" in detail and overflow_finding(open_f):
             return overflow_finding(open_f)
     if kind == "ts-run":
@@ -276,7 +278,7 @@ def check_kernels(ctx, rng, n, stats, open_f):
 # ------------------------------------------------------------------ tie 2: string literals in the emitted TypeScript
 
 STR_ALPHA = ["a", "b", "Z", "0", "1", "7", " ", "$", "{", "}", "`", "'", "\\\\", "\\n", "\\t", "\\\"", "\\0",
-             "\\r", "\\b", "\\f", "\\v", "é", "日", "${", "`", "x", "\\q", "\\1", "\\"]
+             "\\r", "\\b", "\\f", "\\v", "é", "日", "${", "`", "x", "\\q", "\\1", "\\", "\r", "\t"]
 
 
 def gen_raw(rng, avoid_octal):
@@ -1394,6 +1396,60 @@ def check_bounds(ctx, stats, open_f):
                           no_input=True)
             return
 
+
+# ------------------------------------------------------------------ oracle H: one program per reject gate of the checker + representation controls (deterministic)
+
+def check_gates(ctx, stats, open_f):
+    from . import c03_gates as G
+    items = []
+    for k, src in G.REJECT.items():
+        items.append(("reject", k, src, False, None))
+    for k, src in G.REJECT_STD.items():
+        items.append(("reject", k, src, True, None))
+    for k, (src, exp) in G.ACCEPT.items():
+        items.append(("accept", k, src, True, exp))
+    for fid, src in G.KNOWN_PROBES.items():
+        if fid in open_f:
+            items.append(("probe:" + fid, fid, src, False, None))
+    progs = [{"sources": {"Main": src}, "entry": "Main", "std": std, "run": True, "ts": True, "timeout_ms": 8000}
+             for _, _, src, std, _ in items]
+    for (kind, k, src, std, exp), p, a in zip(items, progs, eval_programs(progs)):
+        stats["gate_programs"] = stats.get("gate_programs", 0) + 1
+        stats["gate_lines"].append((a.get("nerr", -1), a.get("compile")))
+        if a.get("check") != "done":
+            ctx.violation(f"gate `{k}`: the checker did not finish: {a.get('errors', '')[:120]}", {"program": p, "answer": a, "broken": "gate family"}, no_input=True)
+            continue
+        if kind.startswith("probe:"):
+            fails = judge(a) if a.get("nerr", 1) == 0 else []
+            if fails:
+                known_once(ctx, open_f[k], "; ".join(f"{x}: {y}" for x, y in fails)[:200])
+                stats["known_hits"][k] = stats["known_hits"].get(k, 0) + 1
+            continue
+        if kind == "reject":
+            frag = G.FRAGMENT.get(k, "")
+            if a.get("nerr", 0) == 0:
+                # the rule no longer rejects: what happens to the accepted program?
+                wrong = report(ctx, open_f, f"program violating the static rule `{k}` is accepted", p, a, stats)
+                if not wrong:
+                    ctx.violation(f"the checker accepts a program violating the static rule `{k}` (it compiled and ran: {a.get('wasm', {}).get('end')})",
+                                  {"program": p, "answer": a, "broken": f"reject gate `{k}`"}, no_input=True)
+            elif frag and frag not in a.get("errors", "") and frag not in a.get("msg", ""):
+                ctx.violation(f"gate `{k}`: rejected, but not by its own rule (expected a diagnostic containing `{frag}`): {a.get('errors', '')[:200]}",
+                              {"program": p, "answer": a, "broken": f"reject gate `{k}`"}, no_input=True)
+        else:
+            stats["gate_accepted"] = stats.get("gate_accepted", 0) + 1
+            if a.get("nerr", 1) != 0:
+                ctx.violation(f"control program `{k}` is rejected: {a.get('errors', '')[:200]}", {"program": p, "answer": a, "broken": "gate family control"}, no_input=True)
+                continue
+            if report(ctx, open_f, f"control program `{k}`", p, a, stats):
+                continue
+            for b in ("wasm", "ts"):
+                r = a.get(b) or {}
+                if not r.get("end", "").startswith("no-node") and r.get("lines") != exp:
+                    ctx.violation(f"control program `{k}`: {b} prints {r.get('lines')} (expected {exp})", {"program": p, "answer": a})
+        if len(ctx.violations) > 5:
+            return
+
 # ------------------------------------------------------------------ gate tie
 
 def check_gate(ctx, stats):
@@ -1530,16 +1586,17 @@ def run(ctx):
     rng = ctx.rng
     steps = [
         ("corpus", lambda: run_corpus(ctx, stats, open_f)),
-        ("kernels", lambda: check_kernels(ctx, rng.fork(), ctx.scale(3000, 60000), stats, open_f)),
+        ("kernels", lambda: check_kernels(ctx, rng.fork(), ctx.scale(2000, 60000), stats, open_f)),
         ("strings", lambda: check_strings(ctx, rng.fork(), ctx.scale(70, 1500), stats, open_f)),
-        ("layouts", lambda: check_layouts(ctx, rng.fork(), ctx.scale(60, 1500), stats, open_f)),
-        ("matches", lambda: check_matches(ctx, rng.fork(), ctx.scale(120, 4000), stats, open_f)),
-        ("multimodule", lambda: check_multimodule(ctx, rng.fork(), ctx.scale(12, 250), stats, open_f)),
+        ("layouts", lambda: check_layouts(ctx, rng.fork(), ctx.scale(40, 1500), stats, open_f)),
+        ("matches", lambda: check_matches(ctx, rng.fork(), ctx.scale(100, 4000), stats, open_f)),
+        ("multimodule", lambda: check_multimodule(ctx, rng.fork(), ctx.scale(8, 250), stats, open_f)),
+        ("gates", lambda: check_gates(ctx, stats, open_f)),
         ("bounds", lambda: check_bounds(ctx, stats, open_f)),
         ("member-refs", lambda: check_member_refs(ctx, rng.fork(), stats, open_f)),
-        ("loops", lambda: check_loops(ctx, rng.fork(), ctx.scale(60, 1200), stats, open_f)),
-        ("generated", lambda: check_generated(ctx, rng.fork(), ctx.scale(40, 600), stats, open_f)),
-        ("mutants", lambda: check_mutants(ctx, rng.fork(), ctx.scale(320, 6000), stats, open_f)),
+        ("loops", lambda: check_loops(ctx, rng.fork(), ctx.scale(40, 1200), stats, open_f)),
+        ("generated", lambda: check_generated(ctx, rng.fork(), ctx.scale(24, 600), stats, open_f)),
+        ("mutants", lambda: check_mutants(ctx, rng.fork(), ctx.scale(200, 6000), stats, open_f)),
         ("gate", lambda: check_gate(ctx, stats)),
     ]
     for name, f in steps:
@@ -1547,8 +1604,8 @@ def run(ctx):
             break
         f()
     evaluations = (stats.get("layout_cases", 0) + stats["kernel_lines"] + stats["str_cases"] + stats["match_cases"] + stats["mutants"] +
-                   stats["generated"] + stats["mm_bases"] + stats["mm_mutants"] + stats["corpus"] + stats.get("loop_programs", 0) + stats.get("member_refs", 0) + stats.get("bound_programs", 0))
-    nontrivial = (stats.get("bound_accepted", 0) + stats.get("member_refs_accepted", 0) + stats.get("loop_programs", 0) + stats["mutants_accepted"] + stats["generated_accepted"] + stats["mm_bases"] + stats["mm_mutants_accepted"] +
+                   stats["generated"] + stats["mm_bases"] + stats["mm_mutants"] + stats["corpus"] + stats.get("loop_programs", 0) + stats.get("member_refs", 0) + stats.get("bound_programs", 0) + stats.get("gate_programs", 0))
+    nontrivial = (stats.get("gate_accepted", 0) + stats.get("bound_accepted", 0) + stats.get("member_refs_accepted", 0) + stats.get("loop_programs", 0) + stats["mutants_accepted"] + stats["generated_accepted"] + stats["mm_bases"] + stats["mm_mutants_accepted"] +
                   stats["match_acc"].get("1", 0) + stats["str_hist"].get("closed", 0))
     gl = stats.pop("gate_lines")
     ctx.cov.update({
